@@ -1,6 +1,6 @@
 (* C19 obligations over tables regenerated from the current tree *)
 From Coq Require Import String List Bool NArith.
-From KM Require Import Base.Bytes Model.KeyStrength Model.Client Proofs.Client.
+From KM Require Import Base.Bytes Model.KeyStrength Model.Client Proofs.Client Model.ServerKeys Proofs.ServerKeys.
 From KMW Require Import gen.Tables.
 Import ListNotations.
 Open Scope string_scope.
@@ -39,3 +39,15 @@ Proof.
 Qed.
 Goal True. idtac "@@OBL c19_offered_accepted_all". Abort.
 
+
+(* the same for every CA key material the daemon starts with (any algorithm / private-key file format of the main
+   CA, with or without an Ed25519 CA in either format), over the regenerated pattern and RSA size: every offered
+   SSH key type is certified (Ed25519 whenever an Ed25519 CA is configured, else "no such CA"), every X.509 type too *)
+Lemma c19_offered_certified_all_ca : forall k s, load_signers k = Some s -> forall p t,
+  (In t (offered_ssh p) -> t <> KEd25519 \/ sk_ed k <> None ->
+     ssh_answer_of ssh_key_type_alternatives (N.of_nat client_rsa_key_size) s t = SshCertified) /\
+  (In t (offered_ssh p) -> t = KEd25519 -> sk_ed k = None ->
+     ssh_answer_of ssh_key_type_alternatives (N.of_nat client_rsa_key_size) s t = SshNoSuchCA) /\
+  (In t (offered_x509 p) -> x509_certified (N.of_nat client_rsa_key_size) s t = true).
+Proof. exact (offered_certified_any_ca _ _ c19_offered_accepted). Qed.
+Goal True. idtac "@@OBL c19_offered_certified_all_ca". Abort.
